@@ -10,12 +10,12 @@
 (* CrashDomain!Receivers.  For every target TLC enumerates                 *)
 (*   quick   : arity 0 and 1 over the whole pool, arity 2 over the 10-value*)
 (*             sub-pool, two keyword forms per keyword name                *)
-(*   thorough: arity 0..2 over the whole pool, arity 3 as an orthogonal    *)
-(*             array of strength 2 over the whole pool (every pair of      *)
-(*             values in every pair of positions), keyword forms           *)
+(*   thorough: arity 0..2 over the whole pool, arity 3 as a covering       *)
+(*             array of strength 2 over the 23-value MidPool (every pair   *)
+(*             of values in every pair of positions), keyword forms        *)
 (*             (0..1 positional, 1..2 keywords incl. a repeated name).     *)
 (* Every case is one successor state of the target's root state and is     *)
-(* printed once:  <<"C", group, name, receiver, <<args>>, <<<<kw, v>>..>>>> *)
+(* printed once: C[group, name, receiver, [args], [[kw, v], ...]] (JSON)    *)
 (* (args and values are indices into Pool, kw into KwNames).               *)
 (* Expected outcome of every case: a value or an error (CrashDomain).      *)
 (***************************************************************************)
@@ -56,12 +56,13 @@ OA3(vs, q, s) ==
   {<<vs[(i % Len(vs)) + 1], vs[(j % Len(vs)) + 1], vs[((i + j + s) % Len(vs)) + 1]>> : i \in 0..(q - 1), j \in 0..(q - 1)}
 
 SubVals  == [i \in 1..Len(SubPool) |-> Idx(SubPool[i])]
-PoolSeq == [i \in 1..P |-> i]
+MidVals == [i \in 1..Len(MidPool) |-> Idx(MidPool[i])]
+MidIx   == {MidVals[i] : i \in 1..Len(MidPool)}
 A3quick    == OA3(SubVals, 11, Seed)
-A3thorough == IF Tier = "quick" THEN {} ELSE OA3(PoolSeq, 53, Seed)
-ASSUME P <= 53 /\ Len(SubVals) <= 11
+A3thorough == OA3(MidVals, 23, Seed)
+ASSUME Len(MidPool) <= 23 /\ Len(SubVals) <= 11
 ASSUME PairwiseCovers(A3quick, SubIx)
-ASSUME Tier = "thorough" => PairwiseCovers(A3thorough, PoolIx)
+ASSUME PairwiseCovers(A3thorough, MidIx)
 
 Positional == IF Tier = "quick" THEN A0 \cup A1 \cup A2(SubIx)
               ELSE A0 \cup A1 \cup A2(PoolIx) \cup A3thorough
@@ -94,7 +95,7 @@ Next == ph = 0 /\ ph' = 1 /\ cs' \in Cases /\ UNCHANGED tg
 TypeOK == /\ tg \in Targets /\ ph \in {0, 1}
           /\ \A i \in 1..Len(cs.a) : cs.a[i] \in PoolIx
           /\ \A i \in 1..Len(cs.k) : cs.k[i][1] \in 1..K /\ cs.k[i][2] \in PoolIx
-Emit == ph = 1 => PrintT(<<"C", tg[1], tg[2], Receivers(tg[1])[tg[3]], cs.a, cs.k>>)
+Emit == ph = 1 => PrintT("C" \o ToJson(<<tg[1], tg[2], Receivers(tg[1])[tg[3]], cs.a, cs.k>>))
 
 \* coverage guard: what the domain declares, independently of what was printed
 Declared == Cardinality(Targets) * Cardinality(Cases)
